@@ -60,7 +60,12 @@ class LVDMapsLoop(LoopSpec):
         if phase == 'init':
             return {'offset-starts-at-zero': frame.locals['offset'] >= 0}
         n = len(V.items_of(frame.locals['partition_maps']))
-        return {'offset-inside-the-map-bytes': sx_and(frame.locals['offset'] >= 0, frame.locals['offset'] <= n), 'count-nonneg': frame.locals['__k'] >= 0}
+        cl = {'offset-inside-the-map-bytes': sx_and(frame.locals['offset'] >= 0, frame.locals['offset'] <= n), 'count-nonneg': frame.locals['__k'] >= 0}
+        part = it.ctx.ghost.get('lvd_part')
+        if phase == 'assume' and part is not None:
+            # the inductive step is split over several units by the offset at which the iteration starts (their union is 0..n)
+            cl['this-unit-s-slice-of-offsets'] = sx_and(frame.locals['offset'] >= part[0], frame.locals['offset'] < part[1])
+        return cl
 
     def for_enter(self, it, frame, st):
         n = frame.locals['num_partition_maps']
@@ -78,6 +83,7 @@ class LVDMapsLoop(LoopSpec):
 
 @contract
 class AutoParse(Safety):
+    part = None
     loops = {('pycdlib.udf.UDFLogicalVolumeDescriptor.parse', 0): LVDMapsLoop()}
     """<class>.parse(arbitrary bytes of length n): only documented exceptions or the malformed-input family escape"""
     target = 'pycdlib.udf.UDFTag.parse'
@@ -98,6 +104,8 @@ class AutoParse(Safety):
         self.target = 'pycdlib.%s.%s.parse' % (mod, name)
         a = c.a
         a.self = c.new('pycdlib.%s.%s' % (mod, name))
+        if c.symbolic and getattr(self, 'part', None) is not None:
+            c.p.ghost['lvd_part'] = tuple(self.part)
         args = []
         for p in params:
             if p in ('data', 'rrstr', 'valstr', 'instr', 'datestr', 'vd'):
@@ -127,5 +135,10 @@ def family(tier):
         if tier != 'quick':
             lens |= {0, size + 1}
         for n in sorted(lens):
+            if mod + '.' + name == 'udf.UDFLogicalVolumeDescriptor' and n >= size:
+                # the partition-map loop is proved inductively (LVDMapsLoop); its step is split over the start offset 0..72
+                for lo in range(0, 73, 6):
+                    us.append(Unit(AutoParse, {'cls': mod + '.' + name, 'n': n, 'part': [lo, min(lo + 6, 73)]}))
+                continue
             us.append(Unit(AutoParse, {'cls': mod + '.' + name, 'n': n}))
     return us
